@@ -9,14 +9,15 @@ from harness.common import struct_hash
 
 ID = "C17"
 LEVEL_TEXT = ("Lean 4 theorems about the executable model of the code (all inputs, by induction), tied to /repo by tables regenerated on every run (decide) and by differential execution of model and implementation; the property oracle is also run on the implementation for every case. PARTIAL: what is proved is the layout of CREATE / CREATE INDEX / DROP statements (columns and constraints once and in order, flags); that SQLite creates exactly the described schema objects is EXECUTED (PRAGMA read-back), not proved; PERIOD FOR / SYSTEM VERSIONING / UNLOGGED are outside SQLite's grammar and are checked structurally only.")
-LEAN_MODULES = ["Pypika.Props.C17", "Pypika.Props.DDLBuilder"]
+LEAN_MODULES = ["Pypika.Props.C17", "Pypika.Props.DDLBuilder", "Pypika.DDLFrame"]
 TRACE_BUILDER = True   # CREATE TABLE builder calls are also run through Pypika.DDLB.stepC (harness/trace.py)
 THEOREMS = ["Pypika.C17.columns_once_in_order", "Pypika.C17.body_count", "Pypika.C17.uniques_in_order", "Pypika.C17.column_doc",
             "Pypika.C17.column_default", "Pypika.C17.as_select_exclusive", "Pypika.C17.table_flags",
             "Pypika.C17.create_index_layout", "Pypika.C17.drop_layout",
             # CREATE TABLE builder state machine (DDLBuilder.lean, tied call by call through harness/trace.py)
-            "Pypika.DDLB.run_flags_mono", "Pypika.DDLB.temporary_unlogged_independent", "Pypika.DDLB.columns_append", "Pypika.DDLB.unique_appends", "Pypika.DDLB.uniques_in_call_order", "Pypika.DDLB.period_for_appends"]
-AGREE = ["Pypika.Agree.class_quotes"]
+            "Pypika.DDLB.run_flags_mono", "Pypika.DDLB.temporary_unlogged_independent", "Pypika.DDLB.columns_append", "Pypika.DDLB.unique_appends", "Pypika.DDLB.uniques_in_call_order", "Pypika.DDLB.period_for_appends",
+            "Pypika.DDLB.stepC_frame", "Pypika.DDLB.stepC_local", "Pypika.DDLB.ddl_calls_commute"]
+AGREE = ["Pypika.Agree.class_quotes", "Pypika.Agree.ddl_writes_agree", "Pypika.Agree.ddl_reads_agree", "Pypika.Agree.ddl_methods_covered"]
 TRUSTED = ["sqlite3 3.40: PRAGMA table_info / index_list / index_info / foreign_key_list as the reading of 'the resulting table has "
            "exactly those columns, types, NOT NULL flags, defaults, key and unique sets'",
            "PERIOD FOR, SYSTEM VERSIONING, UNLOGGED, AS (SELECT ..) with parentheses and function defaults are outside SQLite's "
